@@ -330,7 +330,7 @@ func (w *world) pick(t int) string {
 			w.panicked = true
 			return "panic"
 		}
-	case <-time.After(10 * time.Second):
+	case <-time.After(3 * time.Second):
 		return "hang"
 	}
 	return ""
@@ -393,7 +393,7 @@ func (w *world) drain() {
 			w.permits[t] <- struct{}{}
 			select {
 			case <-w.ev:
-			case <-time.After(10 * time.Second):
+			case <-time.After(2 * time.Second):
 			}
 			w.st[t] = 2
 		}
@@ -569,8 +569,15 @@ func (g *gen) orderly() [][]string {
 func main() {
 	run := hx.Start()
 	defer run.Finish()
+	hangs := 0
 	emit := func(class string, threads [][]string, picks []int, complete bool) {
+		if hangs >= 3 {
+			return // the real code blocks: three witnesses are enough, do not wait for thousands of timeouts
+		}
 		made, obs := runCase(threads, picks, complete)
+		if obs == "hang" {
+			hangs++
+		}
 		run.Case(class, opLine(threads, made), obs)
 	}
 	sp := func(s string) []string {
@@ -601,7 +608,8 @@ func main() {
 	fixed("fixed", []string{"Sp1,Sp2,F", "R2:1:aa,R2:1:bb,R7:1:cc,R1:0:dd"}, nil, true)
 	fixed("fixed", []string{"Sc1.p2,F", "R1:1:aa,R2:1:bb"}, nil, true)
 	fixed("fixed", []string{"F", "Sr5,Sr6,Se7", "R2:1:aa,R1:0:bb,R3:1:-,R3:1:cc"}, nil, true)
-	fixed("fixed", []string{"Sp1,F", "R1:1:aa"}, []int{1, 1, 0, 0}, true) // premature answer
+	fixed("fixed", []string{"Sp1", "R1:1:aa", "F"}, []int{0, 1, 1, 2, 2}, true) // premature answer: the login never completes
+	fixed("fixed", []string{"Sp1,F", "R1:1:aa"}, []int{1, 1, 0, 0}, true)
 	fixed("fixed", []string{"Sp1,Sp2,F,Z", "R1:1:aa,R2:1:bb"}, []int{0, 0, 0, 1, 1, 0, 0}, true)
 	fixed("fixed", []string{"Sp1,F,X", "R1:1:aa"}, []int{0, 0, 0, 0}, true)
 	fixed("fixed", []string{"B0,B1,B2,Sp1,F", "R1:1:aa"}, nil, true)
